@@ -82,6 +82,14 @@ REQUIRE = {
     "l_kind_mirror": 40,
     "l_kind_random": 40,
     "c_blank_cells_judged": 1000,
+    "p_frames": 1040,
+    "p_frames_visible_through_line_style_only": 240,
+    "p_blank_row_cells_must_show_attribute": 4800,
+    "p_frames_depth_1": 208,
+    "p_frames_depth_16": 208,
+    "p_frames_depth_88": 208,
+    "p_frames_depth_256": 208,
+    "p_frames_depth_16777216": 208,
     "c_cells_fg_high_empty_string_basic_not_default": 80,
     "c_cells_bg_high_empty_string_basic_not_default": 80,
     "c_cells_fg_high_None_falls_back_to_basic": 150,
@@ -100,6 +108,9 @@ RULE = (
     "(l) case = (encoding, markup, width, user-supplied TextLayout returning a generated layout structure: forward / overlapping "
     "(repeat the last 1-4 characters) / reversed line order / repeated lines / skipping / right-to-left mirrored / random segments with "
     "inserted blanks and inserted text); expected cell attributes follow from the segment list alone; "
+    "(p) directed core, complete in every run: raw display without the alternate buffer, 3-row / 2-row frame whose lower row is an "
+    "all-space row in one palette attribute: 13 style-flag sets (each flag alone, combinations, none) x fg default|dark red x bg "
+    "default|dark blue x 5 depths x bright_is_bold off|on x row followed by a default blank row | last row = 1040 frames; "
     "(c) case = (op order of set_terminal_properties/register_palette, palette entries of every form, depth, bright_is_bold, "
     "rows of attribute sequences, 0-3 further set_terminal_properties changes each followed by a redraw of the same content on the "
     "same started screen, ONE terminal model accumulating all output); distinct = distinct descriptors; non-trivial = at least one attributed cell judged"
@@ -2210,6 +2221,135 @@ def l_shrink(case, sig, budget=100):
     return best
 
 
+# ---------------------------------------------------------------------------------------------- (p) partial-screen frames
+# Directed core, never skipped: raw display started WITHOUT the alternate buffer; a frame whose lower rows are
+# all-space rows carrying one attribute.  Every style flag alone and in combinations x default / non-default fg and bg
+# x every colour depth x the attributed blank row followed by a default blank row / being the last row.
+# case = {"k": "p", "depth", "bib", "flags": [...], "fg", "bg", "pos": "middle"|"last", "cols"}
+
+P_FLAG_SETS = [[f] for f in M.SETTINGS] + [
+    [],
+    ["underline", "strikethrough"],
+    ["bold", "italics"],
+    ["bold", "underline"],
+    ["blink", "strikethrough"],
+    ["standout", "underline"],
+    list(M.SETTINGS),
+]
+P_VISIBLE_ON_BLANK = ("underline", "standout", "strikethrough")
+
+
+def p_core_cases():
+    out = []
+    for depth in DEPTHS:
+        for flags in P_FLAG_SETS:
+            for fg in ("default", "dark red"):
+                for bg in ("default", "dark blue"):
+                    for pos, bib in (("middle", False), ("last", False), ("middle", True), ("last", True)):
+                        out.append({"k": "p", "depth": depth, "bib": bib, "flags": list(flags), "fg": fg, "bg": bg, "pos": pos, "cols": 6})
+    return out
+
+
+def p_eval(case, stats=None):
+    import urwid
+    from urwid import util
+    from urwid.display import raw
+
+    def cnt(name, n=1):
+        if stats is not None:
+            stats.count(name, n)
+
+    out = []
+    depth, bib, flags, cols = case["depth"], case["bib"], case["flags"], case["cols"]
+    fgspec = ",".join([case["fg"], *flags])
+    entry = (fgspec, case["bg"], ",".join(flags) or "default", fgspec, case["bg"])
+    old_enc = util.get_encoding()
+    old_term = os.environ.get("TERM")
+    os.environ["TERM"] = "xterm"
+    util.set_encoding("utf-8")
+    cap = _Cap()
+    inp = open(os.devnull)  # noqa: SIM115
+    scr = None
+    try:
+        scr = raw.Screen(input=inp, output=cap)
+        scr.set_terminal_properties(colors=depth, bright_is_bold=bib)
+        scr.register_palette([("row", *entry)])
+        scr.start(alternate_buffer=False)
+        cap.buf.clear()
+        texts = [b"top".ljust(cols), b" " * cols]
+        attrs = [[(None, cols)], [("row", cols)]]
+        if case["pos"] == "middle":
+            texts.append(b" " * cols)
+            attrs.append([(None, cols)])
+        canv = urwid.TextCanvas(texts, attrs, maxcol=cols)
+        scr.draw_screen((cols, len(texts)), canv)
+        data = "".join(cap.buf).encode("utf-8")
+        vt = VT(cols, len(texts) + 3, utf8=True, bce=True)
+        vt.feed(data)
+        cnt("p_frames")
+        cnt(f"p_frames_depth_{depth}")
+        exp = M.entry_expect(entry, depth)
+        visible = sorted(set(flags) & set(P_VISIBLE_ON_BLANK))
+        through = []
+        if set(flags) & {"underline", "strikethrough"}:
+            through.append("line-style")
+        if "standout" in flags:
+            through.append("standout")
+        if case["bg"] != "default" and depth != 1:
+            through.append("background")
+        if through == ["line-style"]:
+            cnt("p_frames_visible_through_line_style_only")
+        if not through:
+            cnt("p_frames_nothing_visible_on_blanks")
+        if vt.row_text(0)[:3] != "top":
+            cnt("p_frames_first_row_missing_not_judged")
+            return out
+        bad_all = set()
+        for x in range(cols):
+            cell = vt.cells[1][x]
+            if cell.ch != " ":
+                bad_all.add("glyph")
+                continue
+            bad = c_cell_ok(cell, exp, bib)
+            vis = {"bg", "underline", "standout", "strikethrough"}
+            if "standout" in flags and cell.reverse:
+                vis |= {"fg", "bold"}
+            bad = [b for b in bad if b in vis]
+            cnt("p_blank_row_cells_judged")
+            if through:
+                cnt("p_blank_row_cells_must_show_attribute")
+            bad_all |= set(bad)
+        if bad_all:
+            default_like = all(not [b for b in c_cell_ok(vt.cells[1][x], DEFAULT_EXP, bib) if b in ("bg", "underline", "standout", "strikethrough")] for x in range(cols))
+            if default_like and through:
+                sig = f"C17|p|partial-screen|all-space-row-with-visible-attribute-not-painted|visible-through={'+'.join(through)}"
+            else:
+                sig = f"C17|p|partial-screen|all-space-row|wrong:{'+'.join(sorted(bad_all))}"
+            out.append((sig, f"depth {depth} entry {entry!r} row position {case['pos']}: blank row decoded {[vt.cells[1][x].style() for x in range(2)]!r}..., palette says bg in {sorted(map(repr, exp[1]))} visible flags {visible}; output={data!r}"))
+    except Exception as e:  # noqa: BLE001
+        import traceback
+
+        tb = traceback.extract_tb(e.__traceback__)
+        out.append((f"C17|p|partial-screen|raise:{type(e).__name__}|in={tb[-1].name if tb else '?'}", f"{type(e).__name__}: {e}"))
+    finally:
+        try:
+            if scr is not None and scr._started:
+                scr.stop()
+        except Exception:  # noqa: BLE001
+            pass
+        inp.close()
+        util.set_encoding(old_enc)
+        if old_term is None:
+            os.environ.pop("TERM", None)
+        else:
+            os.environ["TERM"] = old_term
+    return out
+
+
+def p_shrink(case, sig, budget=0):
+    return case
+
+
 # ---------------------------------------------------------------------------------------------- shrinking (b), (c)
 
 
@@ -2364,8 +2504,8 @@ def c_shrink(case, sig, budget=120):
 
 # ---------------------------------------------------------------------------------------------- driver
 
-EVAL = {"a": a_eval, "b": b_eval, "c": c_eval, "l": l_eval}
-SHRINK = {"a": a_shrink, "b": b_shrink, "c": c_shrink, "l": l_shrink}
+EVAL = {"a": a_eval, "b": b_eval, "c": c_eval, "l": l_eval, "p": p_eval}
+SHRINK = {"a": a_shrink, "b": b_shrink, "c": c_shrink, "l": l_shrink, "p": p_shrink}
 
 
 def judge(ctx, case, shrink=True):
@@ -2425,6 +2565,11 @@ def run(ctx):
             judge(ctx, case)
             ctx.case(case)
             ctx.count("a_fixed_seed_cases")
+    # directed core, never skipped (statically partitioned over the shards): partial-screen frames
+    for i, case in enumerate(p_core_cases()):
+        if ctx.mine(i):
+            judge(ctx, case)
+            ctx.case(case)
     n = 0
     cap = ctx.pick(40000, 1500000)
     while ctx.more(0.4) and n < cap:
